@@ -338,3 +338,116 @@ pub fn for_variants(g: &Grammar, toks: &[GTok], opts: &VariantOpts, mut f: impl 
         }
     }
 }
+
+// ---------------------------------------------------------------------------------------------
+// deep nesting: a statement (any derivation of Stmt with <= d deviations) wrapped in k nested
+// control structures of one kind; marks as in the grammar
+
+use crate::grammar::{M_B, M_C, M_K, M_O, M_S};
+
+fn gt(text: &str, marks: u16) -> GTok {
+    GTok { text: text.to_string(), marks, pop_k: 0, pop_o: 0, hard_nl: false, starts: vec![] }
+}
+
+pub const NEST_KINDS: usize = 6;
+
+pub fn nest(core: &[GTok], k: usize, kind: usize) -> Vec<GTok> {
+    let mut inner: Vec<GTok> = core.to_vec();
+    if let Some(f) = inner.first_mut() {
+        f.marks |= M_S;
+    }
+    for _ in 0..k {
+        let mut out: Vec<GTok> = vec![];
+        match kind {
+            0 => {
+                // while a do begin <inner> end ;
+                out.extend([gt("while", M_S | M_K), gt("a", 0), gt("do", 0), gt("begin", M_B | M_O)]);
+                out.extend(inner);
+                out.extend([gt("end", M_C), gt(";", 0)]);
+                out.last_mut().unwrap().pop_k = 1;
+            }
+            1 => {
+                // if a then begin <inner> end else begin a ; end ;
+                out.extend([gt("if", M_S | M_K), gt("a", 0), gt("then", 0), gt("begin", M_B | M_O)]);
+                out.extend(inner);
+                out.extend([gt("end", M_C), gt("else", 0), gt("begin", M_B | M_O), gt("a", M_S), gt(";", 0), gt("end", M_C), gt(";", 0)]);
+                out.last_mut().unwrap().pop_k = 1;
+            }
+            2 => {
+                // try <inner> finally a ; end ;
+                out.extend([gt("try", M_S | M_O)]);
+                out.extend(inner);
+                out.extend([gt("finally", M_C | M_O), gt("a", M_S), gt(";", 0), gt("end", M_C), gt(";", 0)]);
+            }
+            3 => {
+                // case x of 1 : begin <inner> end ; end ;
+                out.extend([gt("case", M_S | M_O), gt("x", 0), gt("of", 0), gt("1", M_K), gt(":", 0), gt("begin", M_B | M_O)]);
+                out.extend(inner);
+                out.extend([gt("end", M_C), gt(";", 0)]);
+                out.last_mut().unwrap().pop_k = 1;
+                out.extend([gt("end", M_C), gt(";", 0)]);
+            }
+            4 => {
+                // repeat <inner> until a ;
+                out.extend([gt("repeat", M_S | M_O)]);
+                out.extend(inner);
+                out.extend([gt("until", M_C), gt("a", 0), gt(";", 0)]);
+            }
+            _ => {
+                // if a then <inner-as-body> else if b then begin a ; end else a ;   (else-if chain)
+                out.extend([gt("if", M_S | M_K), gt("a", 0), gt("then", 0), gt("begin", M_B | M_O)]);
+                out.extend(inner);
+                out.extend([gt("end", M_C), gt("else", 0), gt("if", 0), gt("b", 0), gt("then", 0), gt("begin", M_B | M_O), gt("a", M_S), gt(";", 0), gt("end", M_C), gt("else", 0), gt("a", 0), gt(";", 0)]);
+                out.last_mut().unwrap().pop_k = 1;
+            }
+        }
+        inner = out;
+    }
+    let mut prog = vec![gt("begin", M_O)];
+    prog.extend(inner);
+    prog.extend([gt("end", M_C), gt(";", 0)]);
+    prog
+}
+
+pub struct DeepFamily {
+    pub label: String,
+    pub g: Arc<Grammar>,
+    pub d: usize,
+    pub max_depth: usize,
+    pub cfgs: Vec<Cfg>,
+    pub f: ProgFn,
+}
+
+impl DeepFamily {
+    fn decode(&self, idx: u64) -> (Vec<GTok>, Cfg) {
+        let nc = self.cfgs.len() as u64;
+        let cfg = self.cfgs[(idx % nc) as usize];
+        let mut r = idx / nc;
+        let kind = (r % NEST_KINDS as u64) as usize;
+        r /= NEST_KINDS as u64;
+        let k = (r % self.max_depth as u64) as usize + 1;
+        r /= self.max_depth as u64;
+        let core = self.g.nth_upto(self.g.nt("Stmt"), self.d, r);
+        (nest(&core, k, kind), cfg)
+    }
+}
+
+impl Family for DeepFamily {
+    fn name(&self) -> String {
+        format!("{}:deep(stmt d<={},depth<={},kinds={})x{}cfg", self.label, self.d, self.max_depth, NEST_KINDS, self.cfgs.len())
+    }
+    fn len(&self) -> u64 {
+        self.g.count_upto(self.g.nt("Stmt"), self.d) * self.max_depth as u64 * NEST_KINDS as u64 * self.cfgs.len() as u64
+    }
+    fn run(&self, idx: u64, ctx: &mut Ctx) {
+        let (toks, cfg) = self.decode(idx);
+        (self.f)(&self.g, &toks, &cfg, ctx);
+    }
+    fn describe(&self, idx: u64) -> Value {
+        let (toks, cfg) = self.decode(idx);
+        json!({"input": layout::render(&toks, &layout::base_gaps(&toks, Base::L1)), "cfg": cfg})
+    }
+    fn horizon_ms(&self) -> u64 {
+        30000
+    }
+}
